@@ -118,6 +118,8 @@ def run_cell(cell, seed):
             out.append(judge(cell, 'randn under torch.no_grad()', x, ok, y))
             ok, y = util.call_lib_eval(mod, x)
             out.append(judge(cell, 'randn, module in eval() mode', x, ok, y))
+            ok, y = util.call_lib(mod, util.channel_sliced(x))
+            out.append(judge(cell, 'randn as a channel-sliced (non-contiguous) view', x, ok, y))
     # filters given directly as arrays (documented alternative to the names) must give the same transform
     import dtcwt.coeffs as dc
     bt, qt = dc.biort(cell['biort']), dc.qshift(cell['qshift'])
